@@ -38,14 +38,6 @@ def isUrlSel (s : Str) : Bool :=
 def urlSecureB (urlForbidden : List Str) (s : Str) : Bool :=
   isUrlSel s && urlForbidden.all fun f => !isInfixB f s
 
-def takeUntil (p : Nat → Bool) : Str → Str
-  | [] => []
-  | c :: cs => if p c then [] else c :: takeUntil p cs
-
-def dropUntil (p : Nat → Bool) : Str → Str
-  | [] => []
-  | c :: cs => if p c then c :: cs else dropUntil p cs
-
 /-- `Virtual.__init__`: (real, args) — split at the first `?` if any, else the first `|` -/
 def virtualSplit (s : Str) : Str × Str :=
   if s.contains 63 then (takeUntil (· == 63) s, (dropUntil (· == 63) s).drop 1)
